@@ -47,7 +47,8 @@ Inductive act :=
 | AReq (prog : list act)
 | AUnser (prog : list act)
 | ANotify
-| ANoRoute (prog : list act).
+| ANoRoute (prog : list act)
+| ANotifyNR.                     (* node-level notification with no route target: nothing happens *)
 
 Inductive op :=
 | Do (a : act)
@@ -57,7 +58,12 @@ Inductive op :=
 | Tick (hint : list Z)           (* the 1s timer fires (if armed): checkExpired at the current clock *)
 | TickReal (hint : list Z)       (* the real timer is left running until it disarms: two scans *)
 | Advance (dt : Z)
-| SetNext (v : Z).               (* test set-up: allocator position, only while nothing is pending *)
+| SetNext (v : Z)                (* test set-up: allocator position, only while nothing is pending *)
+| Via (v : Z)                    (* test set-up: HOW later requests reach the peer (direct PID / node-level
+                                    app.Request routed by the default route / by a registered route function);
+                                    invisible to the requesting side, so a no-op here *)
+| DirectNotify (u : Z).          (* a sender-less notification is sent to the peer from outside any service
+                                    (service.DirectSendNotify): does not touch the requesting service *)
 
 Inductive ev :=
 (* markers: every operation starts with exactly one *)
@@ -137,6 +143,7 @@ Section WithMax.
                         (fst r2, snd r1 ++ snd r2)
                     end) p (set_ntags s (ntags s + 1)) in
         (fst r, ENoRoute (ntags s) :: ECb (ntags s) RNoService :: snd r)
+    | ANotifyNR => (s, [])
     end.
 
   Fixpoint exec_prog (l : list act) (s0 : st) {struct l} : st * list ev :=
@@ -209,6 +216,8 @@ Section WithMax.
     | Advance dt => (if 0 <=? dt then set_clock s (clock s + dt) else s, [EIdle])
     | SetNext v =>
         (if (0 <=? v) && (v <=? M) && isnil (pending s) then set_next s v else s, [EIdle])
+    | Via _ => (s, [EIdle])
+    | DirectNotify _ => (s, [EIdle])
     end.
 
   (* per-operation observation: events, pending ids (ascending), timer flag, number of
